@@ -47,6 +47,7 @@ func profileByName(name string) Profile {
 		p.Reclaim = true
 		p.Lazy = true
 		p.W["shrinkrace"] = 6
+		p.W["dirover"] = 3
 	case "stale": // C08: heavy inode reuse, dead handles everywhere
 		p.W["write"] = 3
 		p.W["read"] = 2
@@ -59,6 +60,7 @@ func profileByName(name string) Profile {
 		p.W["rmdir"] = 8
 		p.W["stale"] = 30
 		p.W["restart"] = 5
+		p.W["dirover"] = 4
 	case "fail": // C09: nearly full disks, requests that fail late
 		p.W["write"] = 16
 		p.W["bigwrite"] = 6
@@ -96,7 +98,8 @@ func profileByName(name string) Profile {
 		p.W["badname"] = 1
 		p.MaxWrite = 30000
 	case "unstablemix": // C07: three stability levels on several files, COMMITs, metadata operations
-		p.W = map[string]int{"write": 40, "commit": 10, "create": 6, "truncate": 5, "read": 6, "rename": 3, "remove": 3, "mkdir": 2, "getattr": 2, "bigwrite": 1, "abortcommit": 8}
+		p.W = map[string]int{"write": 40, "commit": 10, "create": 6, "truncate": 5, "read": 6, "rename": 3, "remove": 3, "mkdir": 2, "getattr": 2, "bigwrite": 1, "abortcommit": 8, "maxwrite": 5, "hugesymlink": 2}
+		p.Steer["unstablefirst"] = true
 		p.MaxWrite = 12000
 	case "lockorder": // C06: children with smaller and larger numbers than their parents, all multi-lock paths
 		p.W = map[string]int{"create": 12, "mkdir": 12, "symlink": 3, "remove": 10, "rmdir": 8, "rename": 22, "lookup": 14,
@@ -137,6 +140,7 @@ func profileByName(name string) Profile {
 		p.W["rmdir"] = 6
 		p.W["stale"] = 8
 		p.W["restart"] = 2
+		p.W["dirover"] = 3
 	}
 	return p
 }
